@@ -112,6 +112,9 @@ class TreeSpec(Spec):
     def hist_cost(self, hist):
         return len(repr(hist))
 
+    def lookup(self):
+        return lookup_names()
+
     def run_case(self, hist):
         from xdoctest import utils
         from xdoctest.utils import util_import
@@ -125,7 +128,7 @@ class TreeSpec(Spec):
             root = os.path.join(base, 'root-%08x' % (zlib.crc32(repr(hist).encode()) & 0xffffffff))
             materialize(root, hist)
             importlib.invalidate_caches()
-            for nm in lookup_names():
+            for nm in self.lookup():
                 n += 1
                 exp = oracle(root, nm)
                 try:
@@ -189,6 +192,118 @@ class TreeSpec(Spec):
                 seen.add(a['sig'])
                 uniq.append(a)
         return {'atoms': uniq, 'n': n, 'nontrivial': nontriv, 'outcomes': outcomes, 'case': {'tree': hist}}
+
+
+ODD = ['z__init__', 'y__main__', '__init__z', 'a']
+
+
+class OddNameSpec(TreeSpec):
+    """module names that merely contain / end in __init__ or __main__ (legal identifiers): they are ordinary modules"""
+    title = 'trees with module names that end in __init__ / __main__'
+
+    def __init__(self, name):
+        TreeSpec.__init__(self, name, 1)
+        self.rule = ('package a (with / without __init__.py) holding every subset of the modules %r, plus the same names at '
+                     'the top level; all names a.<n> and <n>; non-trivial = as for the tree spec' % (ODD,))
+
+    def histories(self, stats):
+        import itertools
+        for r in range(len(ODD) + 1):
+            for sub in itertools.combinations(ODD, r):
+                ch = tuple(sorted((n, ('mod',)) for n in sub))
+                for kind in ('pkg', 'ns'):
+                    yield tuple(sorted({'a': (kind, ch), 'z__init__': ('mod',) if r % 2 else None, 'y__main__': ('mod',)}.items()))
+
+    def lookup(self):
+        return ['a'] + ODD[:3] + ['a.' + n for n in ODD]
+
+
+class ShadowSpec(Spec):
+    """a module *name* handed to the collection entry points is resolved on the search path like an import; an
+    unimportable entry of the same name in the current directory (plain directory, extension-less file) does not
+    take its place"""
+    prop = 'C17'
+    name = 'cwd-shadow'
+    title = 'module name given to parse_doctestables vs same-named entries in the current directory'
+    KINDS = ['none', 'plain-dir', 'extensionless-file', 'dir-with-other-py']
+    max_len = 3
+
+    def __init__(self):
+        self.rule = ('target in {top-level module, package, module in a package} on sys.path x entry of the same (first) name '
+                     'in the cwd %r x cwd itself on sys.path {no, yes (after the real root)}; the doctest collected must be the '
+                     'one of the importable module; non-trivial = entry present' % (self.KINDS,))
+
+    def histories(self, stats):
+        for target in ('module', 'package', 'submodule'):
+            for k in self.KINDS:
+                for cwd_on_path in (False, True):
+                    yield (target, k, cwd_on_path)
+
+    def hist_cost(self, hist):
+        return 0
+
+    def run_case(self, hist):
+        import io
+        import warnings
+        import contextlib
+        from xdoctest import core
+        target, kind, cwd_on_path = hist
+        atoms = []
+        with harness.scratch_dir('c17s') as d:
+            root = os.path.join(d, 'root')
+            cwd_dir = os.path.join(d, 'work')
+            os.makedirs(root)
+            os.makedirs(cwd_dir)
+            doc = 'def f():\n    """\n    >>> print(%r)\n    %s\n    """\n'
+            if target == 'module':
+                name, first = 'shq17', 'shq17'
+                with open(os.path.join(root, 'shq17.py'), 'w') as f:
+                    f.write(doc % ('tok_real', 'tok_real'))
+            else:
+                os.makedirs(os.path.join(root, 'shp17'))
+                with open(os.path.join(root, 'shp17', '__init__.py'), 'w') as f:
+                    f.write(doc % ('tok_real', 'tok_real'))
+                with open(os.path.join(root, 'shp17', 'sub.py'), 'w') as f:
+                    f.write(doc % ('tok_real', 'tok_real'))
+                name, first = ('shp17', 'shp17') if target == 'package' else ('shp17.sub', 'shp17')
+            ent = os.path.join(cwd_dir, first)
+            if kind == 'plain-dir':
+                os.makedirs(ent)
+            elif kind == 'extensionless-file':
+                with open(ent, 'w') as f:
+                    f.write('not python\n')
+            elif kind == 'dir-with-other-py':
+                os.makedirs(ent)
+                with open(os.path.join(ent, 'other.py'), 'w') as f:
+                    f.write(doc % ('tok_shadow', 'tok_shadow'))
+            old_cwd = os.getcwd()
+            old_path = list(sys.path)
+            try:
+                os.chdir(cwd_dir)
+                sys.path.insert(0, root)
+                if cwd_on_path:
+                    sys.path.insert(1, '')
+                importlib.invalidate_caches()
+                try:
+                    with contextlib.redirect_stdout(io.StringIO()), warnings.catch_warnings():
+                        warnings.simplefilter('ignore')
+                        exs = list(core.parse_doctestables(name, style='freeform', analysis='static'))
+                    toks = sorted(set(t for e in exs for t in ('tok_real', 'tok_shadow') if t in e.docsrc))
+                    mods = sorted(set(os.path.relpath(e.modpath, d) for e in exs))
+                    if toks != ['tok_real']:
+                        atoms.append({'sig': 'shadow:wrong-thing-collected',
+                                      'msg': 'parse_doctestables(%r) with a %s named %r in the cwd (cwd on sys.path: %s) collected %r from %r; '
+                                             'the importable module is under root/' % (name, kind, first, cwd_on_path, toks, mods)})
+                except BaseException as ex:
+                    if type(ex).__name__ == 'CaseTimeout':
+                        raise
+                    atoms.append({'sig': 'shadow:raises:' + type(ex).__name__, 'msg': '%r (%s in cwd): %r' % (name, kind, ex)})
+            finally:
+                os.chdir(old_cwd)
+                sys.path[:] = old_path
+                harness.forget_modules('shq17', 'shp17')
+        return {'atoms': atoms, 'outcome': 'ok' if not atoms else 'bad', 'case': {'target': target, 'cwd_entry': kind, 'cwd_on_path': cwd_on_path},
+                'nontrivial': int(kind != 'none')}
 
 
 EDIT_FILES = ['a.py', 'a/__init__.py', 'a/a.py', 'a/a/__init__.py', 'a/a/a.py', 'a/b_c.py']
@@ -279,5 +394,5 @@ class EditSpec(Spec):
 
 def specs(tier):
     if tier == 'thorough':
-        return [TreeSpec('trees-depth1', 1), TreeSpec('trees-depth2-wide', 2, wide=True), EditSpec('edits<=3', 3)]
-    return [TreeSpec('trees-depth1', 1), TreeSpec('trees-depth2', 2), EditSpec('edits<=2', 2)]
+        return [TreeSpec('trees-depth1', 1), TreeSpec('trees-depth2-wide', 2, wide=True), OddNameSpec('odd-names'), ShadowSpec(), EditSpec('edits<=3', 3)]
+    return [TreeSpec('trees-depth1', 1), TreeSpec('trees-depth2', 2), OddNameSpec('odd-names'), ShadowSpec(), EditSpec('edits<=2', 2)]
